@@ -221,6 +221,29 @@ func r39EncodersDoNotRewrite(c *core.Ctx, R string) {
 				}
 			}
 		}
+		// nor does it compute with the numbers it encodes: no floating-point arithmetic and no math.* call in the
+		// encoder or the package helpers it uses (a coordinate rounded on the way out decodes to another value)
+		comp := ""
+		for _, fn := range fns {
+			for _, b := range fn.Blocks {
+				for _, in := range b.Instrs {
+					switch x := in.(type) {
+					case *ssa.BinOp:
+						if bt, ok := x.X.Type().Underlying().(*types.Basic); ok && bt.Info()&types.IsFloat != 0 {
+							switch x.Op {
+							case token.ADD, token.SUB, token.MUL, token.QUO:
+								comp += fmt.Sprintf("%s in %s @%s; ", x.Op, fn.Name(), c.P.Pos(x.Pos()))
+							}
+						}
+					case ssa.CallInstruction:
+						if id := core.StaticCalleeID(x); strings.HasPrefix(id, "math.") {
+							comp += fmt.Sprintf("%s in %s @%s; ", id, fn.Name(), c.P.Pos(x.Pos()))
+						}
+					}
+				}
+			}
+		}
+		c.Check(R, "encoder-does-not-compute/"+f.Name, f.Decl.Pos(), comp == "", "no floating-point arithmetic on the way out", "MarshalJSON changes numbers while encoding them ("+comp+"): decode(encode(v)) is no longer v")
 		c.Check(R, "encoder-does-not-rewrite/"+f.Name, f.Decl.Pos(), bad == "", "MarshalJSON writes no field of a tms20 value", "MarshalJSON assigns to a field of the value it encodes ("+bad+"): the encoding no longer reflects what was decoded")
 	}
 	if n < 3 {
@@ -614,6 +637,28 @@ func r40DecodeTotal(c *core.Ctx) {
 			}
 			if cur, seen := minGroups[lhs]; !seen || g < cur {
 				minGroups[lhs] = g
+			}
+			return true
+		})
+		// any other value given to such a variable (a strings.Split result, a sub-slice, …) has a length the
+		// patterns say nothing about
+		ast.Inspect(f.Decl.Body, func(x ast.Node) bool {
+			as, ok := x.(*ast.AssignStmt)
+			if !ok || len(as.Lhs) != len(as.Rhs) {
+				return true
+			}
+			for i := range as.Lhs {
+				lhs := core.ObjOf(info, as.Lhs[i])
+				if _, tracked := minGroups[lhs]; !tracked || lhs == nil {
+					continue
+				}
+				if call, ok := ast.Unparen(as.Rhs[i]).(*ast.CallExpr); ok && core.IsCallTo(info, call, "regexp.Regexp.FindStringSubmatch") {
+					continue
+				}
+				if canon(as.Rhs[i]) == "nil" {
+					continue
+				}
+				minGroups[lhs] = -1
 			}
 			return true
 		})
